@@ -3,6 +3,7 @@ import PydraModel.Gen.JobSkeleton
 import PydraModel.JobProto.Model
 import PydraModel.JobProto.Lemmas
 import PydraModel.JobProto.Bind
+import PydraModel.JobProto.Conc
 /-
 JSON-lines driver of the JobProto engine (part A).
 
@@ -18,6 +19,10 @@ JSON-lines driver of the JobProto engine (part A).
    "steps":[{"env":…,"fault":…,"submit":…,"then":"death"|"next"}…]}
       -> {"steps":[answers as for "exec"; file states are threaded through, counters are per step]}
   {"op":"after","how":"death"|"next","core":{…}} -> {"core":{…}}     (world the next process / next Job finds)
+  {"op":"interleave","prog":…,"n":k,"dir":b,"result":…,"gates":[hook points…],
+   "events":[{"ev":"start"|"release"|"acquired","pid":i}…]}
+      -> {"status":[[per process: "notStarted"|"waiting:<point>"|"blocked"|"ended:<ctl>"] after each event],
+          "procs":[{ended,resVar,cwd,info}…], "execs":n, "dir":b, "result":…, "jobLock":null|pid}
   {"op":"bind","ret":{"kind":"none|tuple|dict|other","n":k,"keys":[…]},"outs":[[name, mandatory]…]}
       -> {"ok":[[name, value]…]} | {"err":"ValueError"|"RuntimeError"}
 -/
@@ -215,6 +220,76 @@ def handleBind (j : Json) : Except String Json := do
   | .error .noOutputFields => return Json.mkObj [("err", Json.str "ValueError")]
   | .error _ => return Json.mkObj [("err", Json.str "RuntimeError")]
 
+/-! ### interleavings gated at hook points (C10) -/
+
+inductive PStat | waiting (vp : Nat) | blocked | ended (c : Ctl) | running
+
+def pstat (g : Global) (pid : Pid) (gated : List Nat) : PStat :=
+  let p := g.procs pid
+  match p.ended with
+  | some c => .ended c
+  | none =>
+    match p.cfg.next p.env.rerun p.env.prov with
+    | .action _ (.vp n) _ => if gated.contains n then .waiting n else .running
+    | .action i (.lockAcquire .job) _ =>
+      if (coreStep p.env .none i (.lockAcquire .job) (viewCore g pid)).2.1 = .blocked then .blocked else .running
+    | _ => .running
+
+/-- let `pid` run until it waits at a gated hook point, blocks on the job lock, or ends -/
+def advance (gated : List Nat) : Nat → Global → Pid → Global
+  | 0, g, _ => g
+  | fuel + 1, g, pid =>
+    match pstat g pid gated with
+    | .running => advance gated fuel (gstep g pid) pid
+    | _ => g
+
+def pstatJ (g : Global) (pid : Pid) (gated : List Nat) : Json :=
+  match pstat g pid gated with
+  | .waiting n => Json.str ("waiting:" ++ vpNames.getD n "?")
+  | .blocked => Json.str "blocked"
+  | .ended c => Json.str ("ended:" ++ ctlName c)
+  | .running => Json.str "running"
+
+def handleInterleave (j : Json) : Except String Json := do
+  let p ← progOf (← getStr j "prog")
+  let n ← getNat j "n"
+  let dir ← j.getObjValAs? Bool "dir"
+  let result ← resFileOf (← getStr j "result")
+  let gated := (← (← getArr j "gates").toList.mapM (fun x => x.getStr?)).filterMap fun s =>
+    let i := vpNames.idxOf s; if i < vpNames.length then some i else none
+  let mut g := Global.init p (fun _ => ⟨false, false, none, auditStartChdir⟩) dir result
+  let mut started : List Nat := []
+  let mut out : Array Json := #[]
+  for ev in (← getArr j "events") do
+    let pid ← getNat ev "pid"
+    if pid ≥ n then throw "bad-pid"
+    match (← getStr ev "ev") with
+    | "start" =>
+      if started.contains pid then throw "already-started"
+      started := started ++ [pid]
+      g := advance gated 2000 g pid
+    | "release" =>
+      match pstat g pid gated with
+      | .waiting _ => g := advance gated 2000 (gstep g pid) pid
+      | _ => throw s!"release: process {pid} is not waiting at a gate"
+    | "acquired" =>
+      match pstat g pid gated with
+      | .blocked => throw s!"acquired: the lock is not free for {pid}"
+      | _ => g := advance gated 2000 g pid
+    | e => throw s!"bad-event {e}"
+    let stats := (List.range n).map fun q =>
+      if started.contains q then pstatJ g q gated else Json.str "notStarted"
+    out := out.push (Json.arr stats.toArray)
+  let procs := (List.range n).map fun q =>
+    Json.mkObj [("ended", match (g.procs q).ended with | some c => Json.str (ctlName c) | none => Json.null),
+                ("resVar", optJ resValName (g.procs q).loc.resVar), ("cwd", Json.str (cwdName (g.procs q).loc.cwd)),
+                ("info", toJson (g.procs q).loc.info)]
+  return Json.mkObj [
+    ("status", Json.arr out), ("procs", Json.arr procs.toArray),
+    ("execs", toJson ((g.sh.evs.filter fun e => e.2 == Ev.bodyEntered).length)),
+    ("dir", toJson g.sh.dir), ("result", Json.str (resFileName g.sh.result)),
+    ("jobLock", match g.sh.jobLock with | none => Json.null | some q => toJson q)]
+
 def handle (j : Json) : Json :=
   let r : Except String Json := do
     match (← getStr j "op") with
@@ -227,6 +302,7 @@ def handle (j : Json) : Json :=
                          ("tryBody", Json.null)]
     | "exec" => handleExec j
     | "history" => handleHistory j
+    | "interleave" => handleInterleave j
     | "after" =>
       let c ← coreOf (← j.getObjVal? "core")
       match (← getStr j "how") with
